@@ -16,6 +16,7 @@ REPO = os.environ.get("VERIF_REPO", "/repo")
 GO = os.environ.get("VERIF_GO", "go1.26.8")
 ENV = dict(os.environ, GOFLAGS="-mod=mod", GOPROXY="off", GOSUMDB="off", GOTOOLCHAIN="local")
 NPROC = min(16, os.cpu_count() or 4)
+GORACE_OPTS = "log_path=%s halt_on_error=0 history_size=3 atexit_sleep_ms=0 exitcode=0 suppress_equal_stacks=0 suppress_equal_addresses=0"
 
 sys.path.insert(0, VERIF)
 from props import PROPS  # per-property tiers, texts, build flavour
@@ -92,12 +93,14 @@ def make_overlay(tmp, flavour):
 
 def build_worker(tmp, flavour):
     ov = make_overlay(tmp, flavour)
-    out = os.path.join(tmp, "worker")
+    out = os.path.join(tmp, "worker_" + flavour)
     cmd = [GO, "test", "-c", "-vet=off", "-overlay", ov, "-o", out]
     if flavour == "race":
         cmd += ["-race", "-gcflags=all=-d=checkptr=0"]
-    if flavour in ("instr", "race"):
+    if flavour == "instr":
         cmd += ["-tags", "simrt"]
+    if flavour == "race":
+        cmd += ["-tags", "simrt simrace"]
     cmd += ["./worlds"]
     t0 = time.time()
     r = subprocess.run(cmd, cwd=os.path.join(VERIF, "sim"), capture_output=True, text=True, env=ENV)
@@ -202,6 +205,63 @@ def is_known(known, prop, cls, sig):
     return None
 
 
+
+def execute_shards(worker, base_env, nshards, tmp, budget_s, prop):
+    """Run the shards of one phase to completion; deaths and hangs of a worker
+    are confirmed by re-running the run alone and become replayable verdicts."""
+    os.makedirs(tmp, exist_ok=True)
+    shards = [Shard(i, tmp) for i in range(nshards)]
+    for s in shards:
+        s.start(worker, base_env)
+    hard_deadline = time.time() + budget_s * 3 + 120
+    death_violations = []
+    death_counts = {}
+    unconfirmed = []
+    harness_trouble = []
+    live = list(shards)
+    while live:
+        time.sleep(0.2)
+        for s in list(live):
+            code = s.proc.poll()
+            if code is None:
+                if time.time() > hard_deadline:
+                    s.proc.kill()
+                    harness_trouble.append("shard %d exceeded the hard deadline" % s.idx)
+                    live.remove(s)
+                continue
+            if code == 0:
+                live.remove(s)
+                continue
+            # the worker died or hung: which run?
+            raw = open(s.errf, errors="replace").read()
+            err = raw[:20000] + "\n...\n" + raw[-20000:] if len(raw) > 40000 else raw
+            cur = last_unfinished(s.journal)
+            if code == 2 and "HARNESS" in err:
+                harness_trouble.append("shard %d: %s" % (s.idx, err[-2000:]))
+                live.remove(s)
+                continue
+            if cur is None:
+                harness_trouble.append("shard %d exited with %s outside any run: %s" % (s.idx, code, err[-2000:]))
+                live.remove(s)
+                continue
+            kind, sig = death_kind(code, err)
+            world, idx, run_seed = cur
+            death_counts[(kind, sig)] = death_counts.get((kind, sig), 0) + 1
+            if death_counts[(kind, sig)] <= 2:
+                log("worker shard %d %s (%s) during world=%s idx=%d run_seed=%d; confirming" % (s.idx, kind, sig, world, idx, run_seed))
+                v = confirm_death(worker, base_env, tmp, prop, world, idx, kind, sig, s)
+                if v is None:
+                    unconfirmed.append("shard %d: %s at %s/%d did not reproduce when run alone (%s)" % (s.idx, kind, world, idx, sig))
+                else:
+                    death_violations.append(v)
+            s.deaths += 1
+            if s.deaths > 3 or sum(death_counts.values()) > 12 or time.time() > hard_deadline:
+                live.remove(s)
+                continue
+            s.start(worker, base_env, resume="%s:%d" % (world, idx))
+    return shards, death_violations, unconfirmed, harness_trouble
+
+
 def run_check(prop, tier):
     if prop not in PROPS:
         die("unknown property " + prop)
@@ -223,55 +283,28 @@ def run_check(prop, tier):
                         VERIF_REPLAY_DIR=os.path.join(VERIF, "replays"), VERIF_KNOWN=os.path.join(VERIF, "known_findings.jsonl"),
                         VERIF_TMP=tmp, VERIF_REPO_HEAD=repo_head(), GOMAXPROCS=str(T.get("gomaxprocs", 2)),
                         GOTRACEBACK="single")
-        shards = [Shard(i, tmp) for i in range(nshards)]
-        for s in shards:
-            s.start(worker, base_env)
-        hard_deadline = time.time() + T["budget_s"] * 3 + 120
-        death_violations = []
-        death_counts = {}
-        unconfirmed = []
-        harness_trouble = []
-        live = list(shards)
-        while live:
-            time.sleep(0.2)
-            for s in list(live):
-                code = s.proc.poll()
-                if code is None:
-                    if time.time() > hard_deadline:
-                        s.proc.kill()
-                        harness_trouble.append("shard %d exceeded the hard deadline" % s.idx)
-                        live.remove(s)
-                    continue
-                if code == 0:
-                    live.remove(s)
-                    continue
-                # the worker died or hung: which run?
-                raw = open(s.errf, errors="replace").read()
-                err = raw[:20000] + "\n...\n" + raw[-20000:] if len(raw) > 40000 else raw
-                cur = last_unfinished(s.journal)
-                if code == 2 and "HARNESS" in err:
-                    harness_trouble.append("shard %d: %s" % (s.idx, err[-2000:]))
-                    live.remove(s)
-                    continue
-                if cur is None:
-                    harness_trouble.append("shard %d exited with %s outside any run: %s" % (s.idx, code, err[-2000:]))
-                    live.remove(s)
-                    continue
-                kind, sig = death_kind(code, err)
-                world, idx, run_seed = cur
-                death_counts[(kind, sig)] = death_counts.get((kind, sig), 0) + 1
-                if death_counts[(kind, sig)] <= 2:
-                    log("worker shard %d %s (%s) during world=%s idx=%d run_seed=%d; confirming" % (s.idx, kind, sig, world, idx, run_seed))
-                    v = confirm_death(worker, base_env, tmp, prop, world, idx, kind, sig, s)
-                    if v is None:
-                        unconfirmed.append("shard %d: %s at %s/%d did not reproduce when run alone (%s)" % (s.idx, kind, world, idx, sig))
-                    else:
-                        death_violations.append(v)
-                s.deaths += 1
-                if s.deaths > 3 or sum(death_counts.values()) > 12 or time.time() > hard_deadline:
-                    live.remove(s)
-                    continue
-                s.start(worker, base_env, resume="%s:%d" % (world, idx))
+        shards, death_violations, unconfirmed, harness_trouble = execute_shards(worker, base_env, nshards, os.path.join(tmp, "main"), T["budget_s"], prop)
+        # ---- optional second phase: the same worlds in a -race binary (pipe gates, see simrt)
+        race_cfg = T.get("race")
+        race_build_s = 0
+        if race_cfg:
+            rworker, race_build_s = build_worker(tmp, "race")
+            log("built race worker in %.1fs" % race_build_s)
+            build_s += race_build_s
+            rtmp = os.path.join(tmp, "race")
+            os.makedirs(rtmp, exist_ok=True)
+            renv = dict(base_env, VERIF_RUNS=str(race_cfg["runs"]), VERIF_BUDGET_S=str(race_cfg["budget_s"]),
+                        VERIF_RACE_LOG=os.path.join(rtmp, "racelog"), VERIF_SEED=str(seed), GOMAXPROCS="8",
+                        GORACE=GORACE_OPTS % os.path.join(rtmp, "racelog"))
+            if race_cfg.get("worlds"):
+                renv["VERIF_WORLDS"] = ",".join(race_cfg["worlds"])
+            rs, rdv, runc, rht = execute_shards(rworker, renv, nshards, rtmp, race_cfg["budget_s"], prop)
+            for x in rs:
+                x.phase = "race"
+            shards = shards + rs
+            death_violations += rdv
+            unconfirmed += runc
+            harness_trouble += rht
         # ---- merge
         sums = []
         for s in shards:
@@ -352,6 +385,8 @@ def run_check(prop, tier):
             "distinct_measure": P.get("distinct_measure", "distinct (operation kind or observation, canonical reference-model state) pairs reached in non-trivial runs"),
             "components": P.get("components", {}),
             "build": flavour,
+            "race_phase": ({"build": "go test -race -tags 'simrt simrace' (pipe-gate scheduler)", "planned_runs": race_cfg["runs"],
+                            "executions": int(counters.get("race_detector_executions", 0)), "worlds": race_cfg.get("worlds") or "all"} if race_cfg else None),
             "known_findings_seen": known_seen,
             "completed_all_planned_runs": completed,
             "enumerated_parts_complete": exhaustive,
@@ -426,11 +461,22 @@ def run_replay(path):
     P = PROPS[prop]
     tmp = tempfile.mkdtemp(prefix="verif-replay-", dir=os.environ.get("VERIF_TMPROOT", "/tmp"))
     try:
-        worker, _ = build_worker(tmp, P.get("build", "plain"))
+        race = rp["violation"]["class"] == "data-race"
+        worker, _ = build_worker(tmp, "race" if race else P.get("build", "plain"))
         env = dict(ENV, VERIF_PROP=prop, VERIF_REPLAY=os.path.abspath(path), VERIF_TMP=tmp,
                    VERIF_KNOWN=os.path.join(VERIF, "known_findings.jsonl"), GOMAXPROCS="2", GOTRACEBACK="single")
-        r = subprocess.run([worker, "-test.run", "^TestWorker$", "-test.timeout", "0"], env=env, capture_output=True, text=True,
-                           cwd=tmp, preexec_fn=limit_mem)
+        if race:
+            env["GOMAXPROCS"] = "8"
+            env["VERIF_RACE_LOG"] = os.path.join(tmp, "racelog")
+            env["GORACE"] = GORACE_OPTS % os.path.join(tmp, "racelog")
+        # A data-race file is replayed in up to five fresh processes: the schedule is the same each
+        # time, but whether the detector still remembers the first access of a pair depends on its
+        # bounded shadow memory, which varies from process to process (a report is never spurious).
+        for attempt in range(5 if race else 1):
+            r = subprocess.run([worker, "-test.run", "^TestWorker$", "-test.timeout", "0"], env=env, capture_output=True, text=True,
+                               cwd=tmp, preexec_fn=limit_mem)
+            if r.returncode != 0:
+                break
         sys.stdout.write(r.stdout)
         if r.returncode in (0, 1):
             return r.returncode
@@ -454,14 +500,24 @@ def run_selftest(prop, reps=3):
     P = PROPS[prop]
     tmp = tempfile.mkdtemp(prefix="verif-selftest-%s-" % prop, dir=os.environ.get("VERIF_TMPROOT", "/tmp"))
     try:
-        worker, _ = build_worker(tmp, P.get("build", "plain"))
+        flav = os.environ.get("VERIF_SELFTEST_FLAVOUR") or P.get("build", "plain")
+        worker, _ = build_worker(tmp, flav)
         runs = int(os.environ.get("VERIF_SELFTEST_RUNS", "400"))
         all_digests = []
-        for rep, (gmp, nsh) in enumerate([(1, 4), (4, 7), (16, 16)][:reps]):
+        # (race flavour: the detector needs the woken task to find a P other than the one the
+        # parking task still holds; with fewer than 3 Ps it misses about half of the reports)
+        for rep, (gmp, nsh) in enumerate(([(4, 4), (8, 7), (16, 16)] if flav == "race" else [(1, 4), (4, 7), (16, 16)])[:reps]):
             env = dict(ENV, VERIF_PROP=prop, VERIF_TIER="quick", VERIF_SEED=os.environ.get("VERIF_SEED", "1"), VERIF_NSHARDS=str(nsh),
                        VERIF_RUNS=str(runs), VERIF_BUDGET_S="300", VERIF_REPLAY_DIR=os.path.join(tmp, "replays"),
                        VERIF_KNOWN=os.path.join(VERIF, "known_findings.jsonl"), VERIF_TMP=tmp, GOMAXPROCS=str(gmp), VERIF_DIGESTS="1",
                        VERIF_MAX_VIOL="1000000", VERIF_MIN_RUNS="0", VERIF_NO_ENUM="1")
+            if flav == "race":
+                rl = os.path.join(tmp, "racelog_%d" % rep)
+                env["VERIF_RACE_LOG"] = rl
+                env["GORACE"] = GORACE_OPTS % rl
+                ws = (P["tiers"]["quick"].get("race") or {}).get("worlds")
+                if ws:
+                    env["VERIF_WORLDS"] = ",".join(ws)
             procs = []
             for sh in range(nsh):
                 out = os.path.join(tmp, "st_%d_%d.json" % (rep, sh))
